@@ -36,6 +36,7 @@ def nospace(s):
 def check(run):
     from vlib import deductive as D
     from contracts import c_simplifier
+    D.lemma_library(run)           # incl. L10 / L11: fusion and uniqueness of the conditional fold (what links the ghost fold of the contract to the returned sub-list)
     dst, dfailed, deng = D.verify_function(run, "generation/simplifier.py", "simplify_inv_subs", c_simplifier.simplify_inv_subs_contract, timeout_ms=8000,
                                            note="composition preserved in an abstract monoid of parameter maps; ghost conditional fold")
     if dst != "unsupported" and D.canary(run, "generation/simplifier.py", "simplify_inv_subs", c_simplifier.simplify_inv_subs_contract) is False:
@@ -73,7 +74,8 @@ def check(run):
     run.assume("A-spmd / A-mpi for load_subs (scatter delivers piece r to rank r; gather / bcast as in C13)",
                "A-numpy: np.array_split(arange(N), P)[q] = arange(lo(q), lo(q+1)) (validated at run time); A-lemma: every position of a flattened list of lists has an owning piece (prefix sums of non-negative lengths)",
                "rows of the csv file are opaque; the per-entry parsing loop between the two verified regions of load_subs is decided by the bounded round trip")
-    run.assume("lemma library (assumed): the fold of a filtered list equals the conditional fold of the list (fusion), uniqueness of the conditional fold",
+    run.assume("fusion (the fold of a filtered list equals the conditional fold of the list) and uniqueness of the conditional fold are proved by induction in the lemma library (pyvc/lemmas.py, "
+               "L10 / L11) from the defining property of the filter primitive IDX (the entry at k is the CNT(k)-th kept one); that the engine's CNT / IDX are these recursive definitions stays assumed",
                "parameter maps form a monoid under composition (associative, identity); strings are abstract tokens denoting maps",
                "precondition of simplify_inv_subs: every element of all_dup is self-inverse -- discharged for get_all_dup: structural obligation (every listed entry is an instance of a template) + three involution lemmas")
     run.trust("pyvc", "z3 5.1.0")
